@@ -32,6 +32,18 @@ NEEDS = {
  "C13-b4": "push, align(-k) (negative index stored as given), then a size-changing dt assignment, then a read",
  "C14-a4": "DoubleExponentialCurrent configured through the dt / delay setter, then a delayed read (neg_current_ not enrolled as delayed)",
  "C14-b4": "reducer constructed with inclusive=X, record-level inclusive flipped, then duration assigned (inclusive silently reverted)",
+ "C15-a4": "add_monitor(..., unique=True) where the name already exists on the cell, or on two cells of one layer (the flag lands in **tags and is ignored)",
+ "C15-b4": "trainer.eval(), then register_cell / add_monitor, then a layer step in training mode (monitors created in eval mode stay hooked)",
+ "C16-a4": "Clamping constructed with train_update != eval_update, observed in eval mode (eval flag follows the train flag)",
+ "C16-b4": "Normalization on a plain-tensor attribute: run, in-place change of the target (same object), run again (identity-based skip)",
+ "C17-a4": "RecurrentSerial with a non-additive feedfwd_out_transform and non-zero feedback current (transform applied to the sum)",
+ "C17-b4": "a connection with an updater attached and a stateful synapse (exponential / delayed): run, layer.clear(), replay",
+ "C18-a4": "DelayAdjustedSTDP with a register_cell(lr_neg=...) override of opposite sign to the constructor's and an acausal pair",
+ "C18-b4": "DelayAdjustedMSTDP in a one-part sign mode: depressive step, connection.update(), then a purely potentiative step (stale neg cache)",
+ "C19-a4": "HomogeneousPoissonEncoder online with an explicit refrac of at least 2 steps (the online call drops the refrac keyword)",
+ "C19-b4": "compensated encoder: a REJECTED frequency assignment (ValueError) is nevertheless stored and used by the next run",
+ "C20-a4": "victor_purpura_pair_dist with a cost tensor of two or more entries (the minimum also reduces over the cost axis)",
+ "C20-b4": "victor_purpura_pair_dist shifts the caller's spike-time vectors in place: a vector re-used with another partner",
 }
 for k, v in NEEDS.items():
     mp = f"/verif/seeded/{k}/meta.json"
